@@ -6,10 +6,15 @@
    is the tokenizer model's finish_outer_attribute; the validated file keeps the attribute lists:
    C10_validated_file_is_the_input.)  And the attribute text of a token IS the source text at the
    token's byte offset (C12_attribute_text_is_the_source_text, from the lexical specification).
+   AND the front-end link (C12_stored_attributes_are_the_tokens_before_the_keyword; Front/AttrSource.v):
+   for every declaration of a file the front end accepts, the attributes stored in the AST are
+   exactly the attribute tokens that stand immediately before the declaration's keyword in the token
+   sequence of the source — all of them, in order; the token before the first one (if any) is not
+   an attribute, so no attribute of a declaration is lost or handed to its neighbour.
    "Nowhere else" and byte-exactness on the real output are decided by the check's oracle on the
    emitted text. *)
 From Coq Require Import List.
-From Kiki Require Import Base.Ord Base.Chars Data Lex.Model Lex.Spec Emit.Emit Emit.EmitProofs.
+From Kiki Require Import Base.Ord Base.Chars Data Lex.Model Lex.Spec Emit.Emit Emit.EmitProofs Front.Parse Front.AttrSource.
 
 Theorem C12_attributes_verbatim_one_per_line : forall attrs,
   attributes_src attrs = concat (map (fun a => at_src a ++ nl) attrs).
@@ -25,6 +30,20 @@ Theorem C12_attribute_text_is_the_source_text : forall src toks a, tokenize src 
   In (TOuterAttribute a) toks -> exists pre post, src = pre ++ at_src a ++ post /\ at_pos a = blen pre.
 Proof. exact (fun src toks a H Hin => tokens_are_where_they_say src toks H (TOuterAttribute a) Hin). Qed.
 
+Theorem C12_stored_attributes_are_the_tokens_before_the_keyword : forall src toks fuel ast,
+  tokenize src = Ok toks -> front_parse fuel src toks = Ok ast ->
+  forall it, In it ast ->
+    exists pre seg post, toks = pre ++ seg ++ post /\
+      match it with
+      | IStart _ => True
+      | IStruct s => exists p rest, seg = map TOuterAttribute (sd_attrs s) ++ TStructKw p :: TIdent (sd_name s) :: rest
+      | IEnum e => exists p rest, seg = map TOuterAttribute (ed_attrs e) ++ TEnumKw p :: TIdent (ed_name e) :: rest
+      | ITerminal d => exists p rest, seg = map TOuterAttribute (td_attrs d) ++ TTerminalKw p :: TIdent (td_name d) :: rest
+      end /\
+      (pre = [] \/ exists pre' k, pre = pre' ++ [k] /\ forall a, k <> TOuterAttribute a).
+Proof. exact front_end_attributes_are_the_source_tokens. Qed.
+
+Print Assumptions C12_stored_attributes_are_the_tokens_before_the_keyword.
 Print Assumptions C12_attributes_verbatim_one_per_line.
 Print Assumptions C12_attribute_text_is_the_source_text.
 Print Assumptions C12_attributes_immediately_before_their_type.
